@@ -29,6 +29,7 @@ import warnings
 from fractions import Fraction
 
 os.environ.setdefault('NUMBA_BOUNDSCHECK', '1')    # an index outside a block raises instead of reading garbage
+os.environ.setdefault('NUMBA_NUM_THREADS', '2')    # the prange of the averager on two threads (16 oversubscribe a shared machine)
 
 import numpy as np   # noqa: E402
 
@@ -436,6 +437,52 @@ def compare_cx(ctx, cfg, route, impl, mres, tol_autos=None):
     return ok
 
 
+
+# --------------------------------------------------------------------------- batched model calls
+# every ctx.model() call starts the extracted model once; the cheap routes ask for all their cases in one go
+def _ckey(case):
+    import json
+    return json.dumps(case, sort_keys=True)
+
+
+def prefetch(ctx, cases):
+    cache = ctx.extra.setdefault('_c15_cache', {})
+    todo = [c for c in cases if _ckey(c) not in cache]
+    if todo and ctx.model_ok:
+        for c, o in zip(todo, ctx.model(todo)):
+            cache[_ckey(c)] = o
+
+
+def cmodel(ctx, case):
+    cache = ctx.extra.setdefault('_c15_cache', {})
+    k = _ckey(case)
+    if k in cache:
+        return cache.pop(k)
+    return ctx.model([case])[0]
+
+
+def kernel151_wire(cfg, got):
+    wl = [[[lit_wire(x) for x in cell] for cell in row] for row in cfg['w']]
+    return [151, [[] if cfg.get('call', 'kw') == 'default' else int(bool(cfg['divide'])), got[0], got[1], got[2],
+                  [[[[lit_wire(c[0]), lit_wire(c[1])] for c in cell] for cell in row] for row in cfg['vis']], wl]]
+
+
+def prefetch_kernel(ctx, cfgs):
+    from katdal.vis_flags_weights import corrprod_to_autocorr
+    cases = []
+    for cfg in cfgs:
+        cases.append(kernel_wire(cfg))
+        try:
+            arrs = corrprod_to_autocorr([(cfg['labels'][a], cfg['labels'][b]) for a, b in cfg['cps']])
+            cases.append(kernel151_wire(cfg, [x.tolist() for x in arrs]))
+        except Exception:
+            pass
+    prefetch(ctx, cases)
+
+
+def prefetch_avg(ctx, cfgs):
+    prefetch(ctx, [avg_wire(c) for c in cfgs] + [avg_api_wire(c) for c in cfgs])
+
 # --------------------------------------------------------------------------- route kernel
 def kernel_wire(cfg):
     T, F = cfg['T'], cfg['F']
@@ -486,7 +533,7 @@ def run_kernel(ctx, cfg):
     T, F, B = cfg['T'], cfg['F'], len(cps)
     divide = bool(cfg['divide'])
     wl = [[[lit_wire(x) for x in cell] for cell in row] for row in cfg['w']]
-    mo = ctx.model([kernel_wire(cfg)])[0]
+    mo = cmodel(ctx, kernel_wire(cfg))
     if mo == [-999]:
         ctx.disagree('route=kernel;symptom=model_rejects_case', cfg, None, mo, 'wire format error', kind='tie')
         return
@@ -532,11 +579,11 @@ def run_kernel(ctx, cfg):
         else:
             out = weight_power_scale(vis, w, ai, i1, i2, divide=divide)
     obs = 'weights' if divide else 'unscaled'
-    if call != 'default':
-        compare_ext(ctx, cfg, 'kernel', obs, out, m, cfg['vis'], 'unscaled' if divide else 'scaled')
+    # (a call without `divide` is generated together with divide=True: the documented default direction)
+    compare_ext(ctx, cfg, 'kernel' if call != 'default' else 'kernel_default_call', obs, out, m, cfg['vis'],
+                'unscaled' if divide else 'scaled')
     # the kernel model alone, given the REAL lookup arrays
-    mk = ctx.model([[151, [[] if call == 'default' else int(divide), got[0], got[1], got[2],
-                           [[[[lit_wire(c[0]), lit_wire(c[1])] for c in cell] for cell in row] for row in cfg['vis']], wl]]])[0]
+    mk = cmodel(ctx, kernel151_wire(cfg, got))
     for t in range(T):
         for f in range(F):
             for b in range(B):
@@ -1149,6 +1196,10 @@ def run_v4(ctx, cfg):
     m_avail = ma[0] == 1
     m_apd = (ma[1] if m_avail else ma[2])
     m_apd = m_apd[0] if m_apd else None
+    if (exc_err is None) == m_avail and apd != m_apd:
+        ctx.disagree('route=v4;obs=accumulations_per_dump;symptom=wrong_value', cfg, apd, m_apd,
+                     'accumulations_per_dump differs from n_accs * round_half_even(dump_period / cbf_dump_period)')
+        return
     if (exc_err is None) != m_avail or apd != m_apd:
         ctx.disagree('route=v4;obs=excision;drop=%s;symptom=availability' % drop, cfg,
                      dict(excision=exc_err or 'indexer', accumulations_per_dump=apd),
@@ -1541,16 +1592,16 @@ def gen_avg(rng, force=None):
     T, F, B = rng.randint(1, 6), rng.randint(1, 6), rng.randint(1, 3)
     shape_kind = 'small'
     r = rng.random()
-    if r < 0.07:          # more baselines than one block of the kernel (bl_step = 128): block boundaries
+    if r < 0.04:          # more baselines than one block of the kernel (bl_step = 128): block boundaries
         shape_kind = 'blocks'
-        T, F, B = rng.randint(1, 2), rng.randint(1, 2), rng.choice([127, 128, 129, 130, 255, 256, 257, 300])
-    elif r < 0.10:        # degenerate but legal: an empty axis
+        T, F, B = rng.randint(1, 2), rng.randint(1, 2), rng.choice([127, 128, 129, 130, 256, 257])
+    elif r < 0.07:        # degenerate but legal: an empty axis
         shape_kind = 'empty_axis'
         k = rng.randrange(3)
         T, F, B = [0 if k == 0 else T, 0 if k == 1 else F, 0 if k == 2 else B]
-    elif r < 0.16:        # the call without averaging options
+    elif r < 0.12:        # the call without averaging options
         shape_kind = 'defaults'
-        T, F, B = rng.randint(1, 23), rng.randint(6, 18), rng.randint(1, 2)
+        T, F, B = rng.randint(1, 12), rng.randint(6, 17), rng.randint(1, 2)
     timeav = force.get('timeav', rng.randint(1, max(T, 1)) if rng.random() < 0.85 else rng.randint(T + 1, T + 3))
     chanav = force.get('chanav', rng.randint(1, max(F, 1)) if rng.random() < 0.85 else rng.randint(F + 1, F + 3))
     flagav = rng.random() < 0.5
@@ -1600,7 +1651,7 @@ def run_avg(ctx, cfg):
     w = np.array([[[lit_float(x) for x in cell] for cell in row] for row in cfg['w']], np.float32).reshape(T, F, B)
     fl = np.array(cfg['flags'], bool).reshape(T, F, B)
     defaults = cfg.get('shape_kind') == 'defaults'
-    mo, ma = ctx.model([avg_wire(cfg), avg_api_wire(cfg)])
+    mo, ma = cmodel(ctx, avg_wire(cfg)), cmodel(ctx, avg_api_wire(cfg))
     if mo == [-999] or ma == [-999]:
         ctx.disagree('route=avg;symptom=model_rejects_case', cfg, None, mo, 'wire format error', kind='tie')
         return
@@ -1608,7 +1659,11 @@ def run_avg(ctx, cfg):
     # tie = the function as written (wire_1510); property = the declarative bins (wire_155).  With the options left
     # out the property fixes nothing about the factors: tie only.
     if defaults:
-        mo = [ma[0]] + ([ma[2], None] if ma[0] == 1 else [])
+        # property side: the bins of the factors the call used, flags combined by AND (OR is optional, i.e. not the default)
+        dta, dca = ma[-1]
+        ms = ctx.model([[155, [T, F, B, dta, dca, 0, avg_samples(cfg)]]])[0]
+        mo = [ma[0]] + ([ma[2], ms[2] if ms[0] == 1 else None] if ma[0] == 1 else [])
+        cfg = dict(cfg, timeav=dta, chanav=dca, flagav=False)
     else:
         if mo[0] != ma[0] or (mo[0] == 1 and mo[1] != ma[2]):
             ctx.disagree('route=avg;symptom=models_differ', cfg, 'blocked', 'per-baseline',
@@ -1738,11 +1793,23 @@ def run(ctx):
             ('lookup', gen_lookup, 16, 200), ('avg', gen_avg, 300, 8000), ('v4', gen_v4, 36, 320), ('v3', gen_v3, 48, 400),
             ('vv', gen_vv, 10, 120)]
     only = [r for r in os.environ.get('VERIF_C15_ROUTES', '').split(',') if r]
+    import time
+    secs = {}
+    batch = {'kernel': prefetch_kernel, 'avg': prefetch_avg}
     for route, gen, nq, nt in plan:
-        for _ in range(ctx.scale(nq, nt)):
-            cfg = gen(sub())
-            if not only or route in only:
+        t0 = time.time()
+        cfgs = [gen(sub()) for _ in range(ctx.scale(nq, nt))]
+        if only and route not in only:
+            continue
+        for i in range(0, len(cfgs), 400):
+            part = cfgs[i:i + 400]
+            if route in batch:
+                batch[route](ctx, part)
+            for cfg in part:
                 ROUTES[route](ctx, cfg)
+        secs[route] = round(time.time() - t0, 1)
+    ctx.extra.pop('_c15_cache', None)
+    ctx.extra['route_seconds'] = secs
     if ctx.tier == 'thorough':
         cross_check_extraction(ctx)
     ctx.exhaustive = False
